@@ -32,7 +32,7 @@ Obj(u) == [live |-> TRUE, u |-> u, params |-> ListOf(u)]
 Live == {h \in Handles : objs[h].live}
 
 (* ---- list serializer actually used for write-through ---- *)
-ImplEsc(o, s) == Flat([i \in 1..Len(s) |-> IF s[i] = 32 THEN <<43>> ELSE EncCp(o.sQuery, s[i])])
+ImplEsc(o, s) == Flat([i \in 1..Len(s) |-> IF s[i] = 32 THEN <<43>> ELSE Enc1(o, o.sQuery, s[i])])
 RECURSIVE SerQImplO(_, _, _)
 SerQImplO(o, skipEq, l) ==
   IF l = <<>> THEN <<>>
